@@ -93,6 +93,8 @@ def _gen_experiment(rng, j: int, indirect: bool, n_det: int, n_en: int) -> dict:
     else:
         e["efix"] = [abs(_gfloat(rng)) + 0.1, eu]
         e["en"] = [[rng.uniform(-50, 50) for _ in range(n_en)], rng.choice(E_UNITS), "e"]
+    # energy grids as loaded from files (float32) or made with arange (int64)
+    e["en_dtype"] = rng.choice(["float64", "float64", "float64", "float32", "int64"])
     return e
 
 
@@ -108,7 +110,8 @@ def _gen_pix(rng, tier: str, chunk_hint=None) -> dict:
         "n": n,
         "seed": rng.randrange(1 << 32),
         "vdtype": rng.choice(["float64", "float64", "float32"]),
-        "idtype": rng.choice(["int64", "int64", "int32"]),
+        # ids as integers, or as floats (pixels read back from an SQW file are float32 throughout)
+        "idtype": rng.choice(["int64", "int64", "int32", "float32", "float64"]),
         "dist": rng.choice(["uniform", "uniform", "ints", "wide"]),
         "units": {
             "u1": rng.choice(Q_UNITS), "u2": rng.choice(Q_UNITS), "u3": rng.choice(Q_UNITS),
@@ -181,7 +184,7 @@ def _gen_call(rng, kind: str, tier: str) -> dict:
         share = n_runs > 1 and rng.random() < 0.3
         if share:
             for e in runs[1:]:
-                for k in ("u", "v", "efix", "en", "emode"):
+                for k in ("u", "v", "efix", "en", "emode", "en_dtype"):
                     e[k] = copy.deepcopy(runs[0][k])
         return {"op": "pix", "pix": _gen_pix(rng, tier), "runs": runs, "share_vars": share,
                 "n_dims": rng.choice([4, 4, 4, 0, 1, 2, 3])}
@@ -338,17 +341,26 @@ def _embed(sc, var, how):
     return layouts.embed(var, "obs", how)
 
 
+def _en_supplied(e: dict) -> np.ndarray:
+    """The energy-transfer values as the caller holds them (float64, float32 or int64 array),
+    expressed in float64 (exact: every float32 / int64 below 2**53 is a float64)."""
+    a = np.asarray(e["en"][0], dtype=float)
+    dt = e.get("en_dtype", "float64")
+    return a if dt == "float64" else a.astype(dt).astype(float)
+
+
 def make_experiment(sc, sqw, e: dict):
     if e["emode"] == 2:
         efix = sc.array(dims=["detector"], values=np.asarray(e["efix"][0], dtype=float), unit=e["efix"][1])
-        arr = np.asarray(e["en"][0], dtype=float)  # (det, en)
+        arr = _en_supplied(e).astype(e.get("en_dtype", "float64"))  # (det, en)
         if e["en"][2] == "de":
             en = sc.array(dims=["detector", "energy_transfer"], values=arr, unit=e["en"][1])
         else:
             en = sc.array(dims=["energy_transfer", "detector"], values=arr.T.copy(), unit=e["en"][1])
     else:
         efix = sc.scalar(float(e["efix"][0]), unit=e["efix"][1])
-        en = sc.array(dims=["energy_transfer"], values=np.asarray(e["en"][0], dtype=float), unit=e["en"][1])
+        en = sc.array(dims=["energy_transfer"], values=_en_supplied(e).astype(e.get("en_dtype", "float64")),
+                      unit=e["en"][1])
     return sqw.SqwIXExperiment(
         run_id=e["run_id"], efix=efix, emode=sqw.EnergyMode(e["emode"]), en=en,
         psi=_var(sc, e["psi"]), u=sc.vector(e["u"]), v=sc.vector(e["v"]),
@@ -1298,13 +1310,13 @@ class SqwEngine(Engine):
         if e["emode"] == 2:
             efix = sc.array(dims=["d"], values=np.asarray(e["efix"][0], dtype=float), unit=e["efix"][1]) \
                 .to(unit="meV", dtype="float64").values
-            en = sc.array(dims=["d", "e"], values=np.asarray(e["en"][0], dtype=float), unit=e["en"][1]) \
+            en = sc.array(dims=["d", "e"], values=_en_supplied(e), unit=e["en"][1]) \
                 .to(unit="meV", dtype="float64").values  # (det, en)
             expect(w + "efix", lambda: R.farr(rs["efix"]), efix)
             expect(w + "en", lambda: R.farr(rs["en"]), en.T.copy())  # file dims (n_en, n_det)
         else:
             efix = np.array([sc.scalar(float(e["efix"][0]), unit=e["efix"][1]).to(unit="meV", dtype="float64").value])
-            en = sc.array(dims=["e"], values=np.asarray(e["en"][0], dtype=float), unit=e["en"][1]) \
+            en = sc.array(dims=["e"], values=_en_supplied(e), unit=e["en"][1]) \
                 .to(unit="meV", dtype="float64").values
             expect(w + "efix", lambda: R.farr(rs["efix"]), efix)
             expect(w + "en", lambda: R.farr(rs["en"]), en.reshape(-1, 1))
@@ -1431,7 +1443,7 @@ def _judge_reader(self, scn, ctx, fin, sink, dec):
                 if e["emode"] == 2:
                     efix = sc.array(dims=["d"], values=np.asarray(e["efix"][0], dtype=float),
                                     unit=e["efix"][1]).to(unit="meV", dtype="float64").values
-                    en = sc.array(dims=["d", "e"], values=np.asarray(e["en"][0], dtype=float),
+                    en = sc.array(dims=["d", "e"], values=_en_supplied(e),
                                   unit=e["en"][1]).to(unit="meV", dtype="float64").values
                     qty(w + "efix", got.efix, efix, "meV")
                     g = got.en
@@ -1444,7 +1456,7 @@ def _judge_reader(self, scn, ctx, fin, sink, dec):
                     qty(w + "efix", got.efix,
                         sc.scalar(float(e["efix"][0]), unit=e["efix"][1]).to(unit="meV", dtype="float64").value, "meV")
                     qty(w + "en", got.en,
-                        sc.array(dims=["e"], values=np.asarray(e["en"][0], dtype=float), unit=e["en"][1])
+                        sc.array(dims=["e"], values=_en_supplied(e), unit=e["en"][1])
                         .to(unit="meV", dtype="float64").values, "meV")
 
     ins = blocks.get(("experiment_info", "instruments"))
